@@ -96,6 +96,22 @@ Qed.
 Lemma cur_set_arr hs m : cur (set_arr hs m) = m.
 Proof. unfold cur, set_arr, deref; simpl. rewrite nth_error_snoc_eq. reflexivity. Qed.
 
+(* replacing the content of the stored array, either way *)
+Lemma renew_ok b hs kinds c m :
+  HInvc hs kinds c ->
+  exists c', HInvc (renew b hs m) kinds c' /\
+  vstate (renew b hs m) = {| st_arr := m; st_frame := h_frame hs |} /\
+  h_args (renew b hs m) = h_args hs /\ h_dfs (renew b hs m) = h_dfs hs /\ h_frame (renew b hs m) = h_frame hs /\
+  cur (renew b hs m) = m.
+Proof.
+  intros HI. unfold renew. destruct b.
+  - destruct (set_arr_ok hs kinds c m HI) as [A [B [C [D E]]]]. eexists.
+    exact (conj A (conj B (conj C (conj D (conj E (cur_set_arr hs m)))))).
+  - pose proof HI as [Ha _]. rewrite Ha. destruct (store_own hs kinds c m HI) as [A [B [C D]]].
+    exists c. refine (conj A (conj B (conj C (conj D (conj eq_refl _))))).
+    change (st_arr (vstate (store hs (RCell c) m)) = m). rewrite B. reflexivity.
+Qed.
+
 Lemma set_frame_ok hs kinds c f :
   HInvc hs kinds c ->
   HInvc (set_frame hs f) kinds c /\ vstate (set_frame hs f) = {| st_arr := cur hs; st_frame := f |} /\
@@ -164,6 +180,7 @@ Qed.
 
 Arguments store : simpl never.
 Arguments set_arr : simpl never.
+Arguments renew : simpl never.
 Arguments bind_arr : simpl never.
 Arguments set_frame : simpl never.
 Arguments push_arg : simpl never.
@@ -197,16 +214,15 @@ Definition Good (cm : list matrix * list (list cluster)) (kinds : list rkind) (h
 
 Lemma hremoved_ok g hs kinds c f' :
   HInvc hs kinds c ->
-  HInv (hremoved g hs f') kinds /\ vstate (hremoved g hs f') = removed g (vstate hs) f' /\
-  h_args (hremoved g hs f') = h_args hs /\ h_dfs (hremoved g hs f') = h_dfs hs.
+  HInv (hremoved H g hs f') kinds /\ vstate (hremoved H g hs f') = removed g (vstate hs) f' /\
+  h_args (hremoved H g hs f') = h_args hs /\ h_dfs (hremoved H g hs f') = h_dfs hs.
 Proof.
   intros HI. unfold hremoved, removed. rewrite vstate_frame.
   destruct (h_frame hs) eqn:Ef; [|destruct f'].
   - destruct (set_frame_ok hs kinds c f' HI) as [A [B [C D]]]. split; [exists c; auto|]. repeat split; auto.
-  - destruct (set_arr_ok hs kinds c (zeros (g_rows g) (g_cols g)) HI) as [A [B [C [D E]]]].
+  - destruct (renew_ok (hp_remove_fresh H) hs kinds c (zeros (g_rows g) (g_cols g)) HI) as [c' [A [B [C [D [E F]]]]]].
     destruct (set_frame_ok _ _ _ [] A) as [A' [B' [C' D']]].
-    split; [eexists; eauto|]. repeat split; try congruence.
-    rewrite B', cur_set_arr. reflexivity.
+    split; [eexists; eauto|]. repeat split; try congruence; try (rewrite B', F; reflexivity).
   - destruct (set_frame_ok hs kinds c (p0 :: f') HI) as [A [B [C D]]]. split; [exists c; auto|]. repeat split; auto.
 Qed.
 
@@ -290,14 +306,14 @@ Proof.
         -- unfold vstate. rewrite Ef. reflexivity.
         -- fin c.
     + simpl fcl. destruct (to_arrayP P g (snd p :: fcl f)) as [m|] eqn:Et; [|simpl; auto].
-      destruct (set_arr_ok hs kinds c m HI) as [A [B [C [D E]]]]. rewrite Ef in B.
+      destruct (renew_ok (hp_rebuild_fresh H) hs kinds c m HI) as [c1 [A [B [C [D [E F]]]]]]. rewrite Ef in B.
       destruct (exposes H k) eqn:Ex; simpl.
       * destruct (ret_stored_ok _ _ _ k A (Hexp eq_refl)) as [A' [B' [C' D']]]. rewrite B', B. split.
         -- reflexivity.
-        -- fin c.
+        -- fin c1.
       * destruct (ret_copy_ok _ _ _ k m A) as [A' [B' [C' D']]]. rewrite B', B. split.
         -- reflexivity.
-        -- fin c.
+        -- fin c1.
   - (* HFrame *)
     simpl. split; auto. fin c.
   - (* HRemoveAll *)
@@ -313,11 +329,11 @@ Proof.
       * exact (f_equal (fun x => (Some x, OUnit)) (eq_sym B)).
       * exact (conj A (conj (eq_trans C Hargs) (eq_trans D Hdfs))).
   - (* HReset *)
-    destruct (set_arr_ok hs kinds c (zeros (g_rows g) (g_cols g)) HI) as [A [B [C [D E]]]].
+    destruct (renew_ok (hp_reset_fresh H) hs kinds c (zeros (g_rows g) (g_cols g)) HI) as [c1 [A [B [C [D [E F]]]]]].
     destruct (set_frame_ok _ _ _ [] A) as [A' [B' [C' D']]].
     simpl. rewrite B'. split.
-    + rewrite cur_set_arr. reflexivity.
-    + fin c.
+    + rewrite F. reflexivity.
+    + fin c1.
 Qed.
 
 (* ---------------------------------------------------------------- sequences *)
@@ -443,17 +459,22 @@ Proof.
   - intros E. inversion E. lia.
 Qed.
 
+Lemma Keeps_renew hs c b m : h_arr hs = RCell c -> Keeps hs (renew b hs m).
+Proof.
+  intros Ha. unfold renew. destruct b; [apply Keeps_set_arr|]. rewrite Ha. apply Keeps_store_own; auto.
+Qed.
+
 Lemma Keeps_ret_copy hs k m : Keeps hs (ret_copy hs k m).
 Proof.
   split; unfold ret_copy; simpl; [rewrite app_length; lia|]. intros c' Hc Hn. split; auto.
   apply nth_error_snoc_lt; auto.
 Qed.
 
-Lemma Keeps_hremoved g hs f' : Keeps hs (hremoved g hs f').
+Lemma Keeps_hremoved g hs c f' : h_arr hs = RCell c -> Keeps hs (hremoved H g hs f').
 Proof.
-  unfold hremoved. destruct (h_frame hs); [|destruct f'].
+  intros Ha. unfold hremoved. destruct (h_frame hs); [|destruct f'].
   - apply Keeps_same_cells; reflexivity.
-  - eapply Keeps_trans; [apply Keeps_set_arr|apply Keeps_same_cells; reflexivity].
+  - eapply Keeps_trans; [apply (Keeps_renew _ c); auto|apply Keeps_same_cells; reflexivity].
   - apply Keeps_same_cells; reflexivity.
 Qed.
 
@@ -481,12 +502,12 @@ Proof.
   - unfold ret in E. destruct (h_frame hs).
     + simpl in E. inversion E; subst. destruct (exposes H k); [apply Keeps_same_cells; reflexivity|apply Keeps_ret_copy].
     + destruct (to_arrayP P g _) as [m|]; simpl in E; [|discriminate]. inversion E; subst.
-      eapply Keeps_trans; [apply Keeps_set_arr|].
+      eapply Keeps_trans; [apply (Keeps_renew _ c); auto|].
       destruct (exposes H k); [apply Keeps_same_cells; reflexivity|apply Keeps_ret_copy].
   - inversion E; subst. apply Keeps_refl.
-  - inversion E; subst. apply Keeps_hremoved.
-  - destruct ids; inversion E; subst; apply Keeps_hremoved.
-  - inversion E; subst. eapply Keeps_trans; [apply Keeps_set_arr|apply Keeps_same_cells; reflexivity].
+  - inversion E; subst. apply (Keeps_hremoved _ _ c); auto.
+  - destruct ids; inversion E; subst; apply (Keeps_hremoved _ _ c); auto.
+  - inversion E; subst. eapply Keeps_trans; [apply (Keeps_renew _ c); auto|apply Keeps_same_cells; reflexivity].
 Qed.
 
 Lemma disc_app : forall a b kinds,
@@ -515,7 +536,7 @@ Proof.
       repeat match type of Es with
              | context [match ?x with _ => _ end] => destruct x; simpl in Es
              end; try discriminate; inversion Es; subst; simpl; auto;
-      unfold hremoved, add_array_mode, ret_stored, ret_copy, store, set_arr, set_frame; simpl;
+      unfold hremoved, add_array_mode, ret_stored, ret_copy, renew, store, set_arr, set_frame; simpl;
       repeat match goal with
              | |- context [match ?x with _ => _ end] => destruct x; simpl
              end; auto; try (apply nth_error_app1_some; auto).
@@ -526,6 +547,9 @@ Qed.
 (* distinct to_xarray results are distinct objects *)
 Definition XrInj (hs : hstate) : Prop :=
   forall j j' r, nth_error (h_res hs) j = Some (RkXr, r) -> nth_error (h_res hs) j' = Some (RkXr, r) -> j = j'.
+
+Lemma h_res_renew b hs m : h_res (renew b hs m) = h_res hs.
+Proof. unfold renew, set_arr, store. destruct b; [|destruct (h_arr hs)]; reflexivity. Qed.
 
 Lemma hstep_res g hs kinds cm o hs' :
   Good cm kinds hs -> fst (hstep H P g hs o) = Some hs' ->
@@ -538,7 +562,7 @@ Proof.
     try (left; repeat match type of E with
                       | context [match ?x with _ => _ end] => destruct x; simpl in E
                       end; try discriminate; inversion E; subst;
-         unfold hremoved, add_array_mode, store, set_arr, set_frame; simpl;
+         unfold hremoved, add_array_mode, renew, store, set_arr, set_frame; simpl;
          repeat match goal with |- context [match ?x with _ => _ end] => destruct x; simpl end; reflexivity).
   right. unfold ret in E. destruct (h_frame hs).
   - simpl in E. inversion E; subst. destruct (exposes H k) eqn:Ex.
@@ -546,9 +570,14 @@ Proof.
     + exists k, (RCell (length (h_cells hs))). split; [reflexivity|]. intros _. eexists; split; [reflexivity|lia].
   - destruct (to_arrayP P g _) as [m|]; simpl in E; [|discriminate]. inversion E; subst.
     destruct (exposes H k) eqn:Ex.
-    + exists k, (h_arr (set_arr hs m)). split; [reflexivity|]. intros ->. rewrite exposes_xr in Ex. discriminate.
-    + exists k, (RCell (length (h_cells (set_arr hs m)))). split; [reflexivity|]. intros _.
-      eexists; split; [reflexivity|]. unfold set_arr; simpl. rewrite app_length. lia.
+    + exists k, (h_arr (renew (hp_rebuild_fresh H) hs m)).
+      split; [unfold ret_stored; simpl; rewrite h_res_renew; reflexivity|].
+      intros ->. rewrite exposes_xr in Ex. discriminate.
+    + exists k, (RCell (length (h_cells (renew (hp_rebuild_fresh H) hs m)))).
+      split; [unfold ret_copy; simpl; rewrite h_res_renew; reflexivity|]. intros _.
+      eexists; split; [reflexivity|]. unfold renew, set_arr, store. destruct (hp_rebuild_fresh H); simpl.
+      * rewrite app_length. lia.
+      * destruct (h_arr hs); simpl; [lia|rewrite upd_length; lia].
 Qed.
 
 Lemma hstep_xrinj g hs kinds cm o hs' :
